@@ -2,6 +2,19 @@
 import os
 from vlib import common as C, coapgen as G
 
+MANIFEST = {
+    "text": "Proof, partial. Lean theorems over ALL byte strings: the transcribed decoder/option walk never index outside the received bytes "
+            "(parse_never_oob, walk_never_oob; an out-of-bounds access is an observable value of the model), they terminate (total functions), "
+            "input the RFC decoder rejects is never handed to the protocol layer and draws at most a Reset (rejected_never_dispatched[_session], "
+            "malformed_reply_at_most_reset, oversize_datagram_never_dispatched). Tie + search: the receive gate of the real code runs under "
+            "ASan/UBSan at every log level on random / mutated / valid inputs for all three framings, and sequences of hostile datagrams are "
+            "delivered to live endpoints (server idle / with an observation / with a partial Block1 body, client with an outstanding request) "
+            "followed by a canary request; a sanitizer abort, a handler call on rejected input or a failed canary is a concrete violation.",
+    "note": "Partial: memory safety, use-after-free, uninitialised reads and UB of the compiled C are observed by sanitizers on the inputs run, not "
+            "proved; readers outside the modelled decoder (block, observe, OSCORE, URI, WebSocket code) are exercised by the sequences and owned by "
+            "C05/C09/C14/C16/C20's own no-overread theorems. Trusted: Lean kernel (+ propext, Classical.choice, Quot.sound), harnesses, generators, sim_core.h.",
+    "design_ref": "DESIGN.md §4 C02",
+}
 LEAN_MODULES = ["CoapVerif.Props.C02"]
 NAMESPACE = "Coap.C02"
 REQUIRED_THEOREMS = ["parse_never_oob", "walk_never_oob", "rejected_never_dispatched", "dispatched_is_reference_decoding",
@@ -69,7 +82,7 @@ def generate(ctx, escalate=False):
     return out
 
 
-SCENARIOS = ["idle", "obs", "blk", "cli"]
+SCENARIOS = ["idle", "obs", "blk", "blk0", "cli"]
 
 
 def targeted(rng, scen):
